@@ -158,23 +158,25 @@ theorem hs_sim (cfg : Cfg) (s s' : St) (ev : Ev) (hs : step cfg s ev = some s') 
     (match kindEv ev with
      | some k => dstep (discOfHS s) k = some (discOfHS s')
      | none => discOfHS s' = discOfHS s) := by
-  cases ev <;> simp only [step] at hs <;> (repeat' split at hs) <;> (try cases hs) <;>
-    simp_all [kindEv, discOfHS, dstep]
+  cases ev <;> simp only [step] at hs
+  all_goals ((repeat' split at hs) <;> (try cases hs) <;> simp_all [kindEv, discOfHS, dstep])
 
 /-- …and it refuses none of them: whenever the rules allow Forward to make a call (or to return), the LTS has the
     step (in states where no `Send` helper was abandoned). -/
-theorem hs_offers (cfg : Cfg) (s : St) (hr : Reachable cfg s) (ha : s.abandoned = false) :
+theorem hs_offers (cfg : Cfg) (hfx : cfg.fx = true) (s : St) (hr : Reachable cfg s) (ha : s.abandoned = false) :
     (∀ d', dstep (discOfHS s) .recvCall = some d' → (step cfg s .recvCall).isSome = true) ∧
     (∀ d' md, dstep (discOfHS s) .setHeader = some d' → (step cfg s (.setHeader md)).isSome = true) ∧
     (∀ d' md, dstep (discOfHS s) .setTrailer = some d' → (step cfg s (.setTrailer md)).isSome = true) ∧
     (∀ d' x, dstep (discOfHS s) .sendCall = some d' → (step cfg s (.sendCall x)).isSome = true) ∧
     (∀ d' e, dstep (discOfHS s) .fwdRet = some d' → (step cfg s (.fwdRet e)).isSome = true) := by
-  have I := inv_reach cfg s hr ha
+  have I := (inv_reach cfg hfx s hr).1
   have hnone : s.pendingSend = false → s.sendHelper = .none := by
     intro hp
     cases hsh : s.sendHelper with
     | none => rfl
-    | _ => have := I.pend (by simp [hsh]); rw [hp] at this; cases this
+    | _ => have := I.pend ha (by simp [hsh]); rw [hp] at this; cases this
+  have hmu : s.pendingSend = false → s.mu = false := by
+    intro hp; rw [I.mu_iff, hnone hp]; rfl
   have hfn : s.fwd.isSome = false → s.fwd.isNone = true := by cases s.fwd <;> simp
   refine ⟨?_, ?_, ?_, ?_, ?_⟩
   · intro d' h
@@ -187,13 +189,13 @@ theorem hs_offers (cfg : Cfg) (s : St) (hr : Reachable cfg s) (ha : s.abandoned 
     by_cases hc : ((discOfHS s).recv = RecvPc.returned ∧ (discOfHS s).pendingSend = false ∧ (discOfHS s).returned = false)
     · obtain ⟨h1, h2, h3⟩ := hc
       simp only [discOfHS] at h1 h2 h3
-      simp [step, h1, h2, hfn h3]
+      simp [step, h1, h2, hfn h3, hmu h2]
     · simp only [dstep] at h; rw [if_neg hc] at h; cases h
   · intro d' md h
     by_cases hc : ((discOfHS s).recv = RecvPc.returned ∧ (discOfHS s).pendingSend = false ∧ (discOfHS s).returned = false)
     · obtain ⟨h1, h2, h3⟩ := hc
       simp only [discOfHS] at h1 h2 h3
-      simp [step, h1, h2, hfn h3]
+      simp [step, h1, h2, hfn h3, hmu h2]
     · simp only [dstep] at h; rw [if_neg hc] at h; cases h
   · intro d' x h
     by_cases hc : ((discOfHS s).recv = RecvPc.returned ∧ (discOfHS s).pendingSend = false ∧ (discOfHS s).returned = false)
